@@ -9,8 +9,11 @@ trusted stubs) interleaved with directive blocks
     //@loop K [iter=NAME]          following lines are spliced before the body of the K-th loop
     //@after[#N] <exact text>      following lines are spliced after the N-th (default: only) occurrence
     //@before[#N] <exact text>     ... before it
+    //@loopstart K / //@loopend K  ... at the start / end of the body of the K-th loop
+    //@beforetail                  ... before the tail expression of the fn body
     //@atend                       ... before the closing brace of the fn body (unit-returning fns)
     //@replace[*] <old> => <new>   exact-text rewrite (rule must be named: `R3: reason` after ` ## `)
+    //@letchain if A && let P = E  desugar a let-chain without else into nested ifs (R5)
     //@fields a, b, c              struct field projection (R6)
     //@attr <text>                 attribute line placed above the item
     //@end
@@ -261,9 +264,12 @@ def extract_item(repo, relfile, path, subs, rules_used):
       parts = arg.split()
       kth = int(parts[0])
       itname = None
+      suffix = None
       for p in parts[1:]:
         if p.startswith('iter='):
           itname = p[5:]
+        if p.startswith('suffix='):
+          suffix = p[7:]
       loops = [m for m in range(body_open + 1, e) if toks[m][0] == 'id' and toks[m][1] in ('for', 'while', 'loop')
                and not (toks[m][1] == 'for' and toks[m + 1][1] == '<')]
       if kth >= len(loops):
@@ -288,7 +294,68 @@ def extract_item(repo, relfile, path, subs, rules_used):
         if m >= lb:
           raise ExtractError('for loop without `in`')
         edits.append(Edit(toks[m][3], 0, ' %s:' % itname, 'R8 ghost iterator name'))
+      if suffix:
+        # R9: `for x in EXPR` over a reference to a std collection written as std defines it (`EXPR.iter()`)
+        if suffix not in ('.iter()',):
+          raise ExtractError('unsupported loop suffix %r' % suffix)
+        edits.append(Edit(toks[lb - 1][3], 0, suffix, 'R9 for-loop iterable %s' % suffix))
+        rules_used.add('R9')
       edits.append(Edit(toks[lb][2], 0, '\n' + btxt, 'R8 loop %d' % kth))
+      rules_used.add('R8')
+    elif name == 'letchain':
+      # R5: `if A && let P = E { B }`  ==>  `if A { if let P = E { B } }`   (refused when an else follows)
+      (a0, b0), = _find_exact(src[start:end], arg.strip(), start, None, path)
+      cond = src[a0:b0]
+      if not cond.startswith('if ') or ' && let ' not in cond:
+        raise ExtractError('@letchain: %r is not of the form `if A && let P = E`' % cond)
+      # token index of the block's opening brace
+      ob = None
+      for m in range(kwi, e + 1):
+        if toks[m][2] >= b0 and toks[m][1] == '{':
+          ob = m
+          break
+      if ob is None or src[b0:toks[ob][2]].strip() != '':
+        raise ExtractError('@letchain: no block directly after the condition')
+      cb = match_close(toks, ob)
+      if cb + 1 <= e and toks[cb + 1][0] == 'id' and toks[cb + 1][1] == 'else':
+        raise ExtractError('@letchain: an else branch follows; the desugaring would change meaning')
+      head, _, tail = cond.partition(' && let ')
+      edits.append(Edit(a0, b0 - a0, head + ' { if let ' + tail, 'R5 let-chain'))
+      edits.append(Edit(toks[cb][3], 0, ' }', 'R5 let-chain close'))
+      rules_used.add('R5')
+    elif name in ('loopstart', 'loopend'):
+      kth = int(arg.split()[0])
+      loops = [m for m in range(body_open + 1, e) if toks[m][0] == 'id' and toks[m][1] in ('for', 'while', 'loop')
+               and not (toks[m][1] == 'for' and toks[m + 1][1] == '<')]
+      if kth >= len(loops):
+        raise ExtractError('anchor lost: loop %d of %s (has %d loops)' % (kth, path, len(loops)))
+      lb = first_brace_at_depth0(toks, loops[kth] + 1)
+      if lb is None:
+        raise ExtractError('loop %d of %s: no body' % (kth, path))
+      lc = match_close(toks, lb)
+      if name == 'loopstart':
+        edits.append(Edit(toks[lb][3], 0, '\n' + btxt, 'R8 loopstart %d' % kth))
+      else:
+        edits.append(Edit(toks[lc][2], 0, btxt, 'R8 loopend %d' % kth))
+      rules_used.add('R8')
+    elif name == 'beforetail':
+      # before the tail expression of the fn body (= after the last `;` or block at depth 1)
+      if kw != 'fn':
+        raise ExtractError('@beforetail on non-fn')
+      m = body_open + 1
+      last = toks[body_open][3]
+      while m < e:
+        t = toks[m]
+        if t[0] == 'punct' and t[1] in '([{':
+          c = match_close(toks, m)
+          if t[1] == '{':
+            last = toks[c][3]
+          m = c + 1
+          continue
+        if t[0] == 'punct' and t[1] == ';':
+          last = t[3]
+        m += 1
+      edits.append(Edit(last, 0, '\n' + btxt, 'R8 beforetail'))
       rules_used.add('R8')
     elif name == 'atend':
       if kw != 'fn':
